@@ -47,7 +47,11 @@ RULE_ADDED = (
               'ients try the IPv6 loopback first. '
               ' '
               'Round 9: rounds in which one request ends fatally (status word outside the powHS'
-              'M ranges on getPubKey / sign) while other clients are queued. ')
+              'M ranges on getPubKey / sign) while other clients are queued. '
+              ' '
+              'Round 10: quiet periods of 11 s .. 1 day by the clock the manager reads (jumped '
+              'while every client waits), then a version request from each client and more traf'
+              'fic. ')
 RULE = RULE + " " + RULE_ADDED.strip()
 ASSUMPTIONS = [
     "schedules are those the OS produces under injected device delays; not enumerated",
@@ -76,12 +80,14 @@ def shards(tier, seed):
                  "late": [12.5] if i in (4, 5) else [],
                  "slowsend_rounds": 1 if i in (5, 6, 7) else 0,
                  "fatal_rounds": 2 if i in (3, 4, 6, 7) else 0,
+                 "quiet": [31.0, 601.0] if i in (0, 1, 5) else [],
                  "uihb_tail": [12.5] if i == 2 else []} for i in range(8)]
     slow = {0: [6.5], 1: [12.0], 2: [32.0], 3: [62.0], 4: [125.0]}
     return [{"seed": seed * 100 + i, "rounds": 60, "max_clients": 16, "per_client": 4,
              "slow": slow.get(i, []), "fault_rounds": 6 if i >= 5 else 0,
              "late": [10.5, 12.5, 30.0, 61.0] if i >= 5 else [],
              "slowsend_rounds": 3, "fatal_rounds": 8,
+             "quiet": [11.0, 31.0, 61.0, 301.0, 3601.0, 86401.0],
              "uihb_tail": [12.5, 21.0] if i < 5 else []}
             for i in range(16)]
 
@@ -98,6 +104,41 @@ class Recorder:
             kw["n"] = len(self.ev)
             kw["th"] = threading.get_ident()
             self.ev.append(kw)
+
+
+class JumpClock:
+    """stands in for the name `time` in the middleware's modules: the real clock plus an
+    offset that the harness moves (a quiet period of minutes passes in no time)"""
+
+    def __init__(self):
+        self.offset = 0.0
+        self._saved = []
+
+    def time(self):
+        return time.time() + self.offset
+
+    def monotonic(self):
+        return time.monotonic() + self.offset
+
+    def sleep(self, dt):
+        time.sleep(dt)
+
+    def __getattr__(self, name):
+        return getattr(time, name)
+
+    def install(self):
+        import sys
+        mw = env.MIDDLEWARE
+        for name, mod in list(sys.modules.items()):
+            f = getattr(mod, "__file__", None) or ""
+            if f.startswith(mw) and getattr(mod, "time", None) is time:
+                self._saved.append(mod)
+                mod.time = self
+
+    def uninstall(self):
+        for mod in self._saved:
+            mod.time = time
+        self._saved = []
 
 
 def make_requests(rng):
@@ -204,7 +245,7 @@ def expected_from_apdus(kind, apdus):
 
 
 def run_round(acc, spec, rnd, rng, slow=None, fault=None, late=None, slowsend=False,
-              uihb_tail=None, fatal=None):
+              uihb_tail=None, fatal=None, quiet=None):
     """fault: {"after": k, "efail": j, "kind": ...} - the link fails at the k-th exchange
     of the round and the next j reconnections find no device; clients keep sending for
     some seconds, so that any repair work done outside a request (a background retry)
@@ -321,6 +362,23 @@ def run_round(acc, spec, rnd, rng, slow=None, fault=None, late=None, slowsend=Fa
                     plan[c] = [("advance", byname["advance"]),
                                ("uihb", lambda: {"command": "uiHeartbeat", "version": 5,
                                                  "udValue": "33" * 32})] + plan[c]
+        jump = None
+        if quiet:
+            # quiet: after some traffic nothing happens for `quiet` seconds - by the clock
+            # the manager reads (the name `time` in its modules), which jumps ahead while
+            # every client waits at a barrier - then each client sends a `version` request
+            # (what nodes poll with) and goes on with device requests.  Whatever the manager
+            # schedules by the clock, requests do not meet on the device.
+            for c in range(nclients):
+                plan[c] = plan[c][:2] + [("jump", None), ("version", lambda: {
+                    "command": "version"})] + plan[c][2:] + plan[c][:2]
+            jc = JumpClock()
+            jc.install()
+
+            def _jump():
+                jc.offset += quiet
+                rec.add("clock-jump", seconds=quiet)
+            jump = threading.Barrier(nclients, action=_jump)
         barrier = threading.Barrier(nclients)
         ssrng = random.Random(rng.getrandbits(32))
         if slowsend:
@@ -358,6 +416,12 @@ def run_round(acc, spec, rnd, rng, slow=None, fault=None, late=None, slowsend=Fa
                 time.sleep(0.3 * c)
             t_start = time.time()
             for i, (kind, mk) in enumerate(plan[c]):
+                if kind == "jump":
+                    try:
+                        jump.wait(timeout=60)
+                    except threading.BrokenBarrierError:
+                        pass
+                    continue
                 if uihb_tail:
                     time.sleep(0.15 + pause.random() * 0.2)
                 elif fault:
@@ -419,9 +483,14 @@ def run_round(acc, spec, rnd, rng, slow=None, fault=None, late=None, slowsend=Fa
             th.start()
         for th in threads:
             th.join(180 + 3 * (slow or 0))
+        if quiet:
+            # (anything scheduled by the clock gets its chance before the server goes)
+            time.sleep(0.5)
         if srv.server is not None:
             srv.server.shutdown()
         t.join(10)
+        if quiet:
+            jc.uninstall()
         alive = any(th.is_alive() for th in threads)
 
     # ------------------------------------------------------------ checking --
@@ -479,6 +548,12 @@ def run_round(acc, spec, rnd, rng, slow=None, fault=None, late=None, slowsend=Fa
             reply = json.loads(data.decode())
         except Exception:
             bad("client-got-unparseable-reply", rid=rid, data=data[:100].decode("latin1"))
+            continue
+        if kind == "version":
+            acc.count("version_requests_after_a_quiet_period")
+            if reply.get("errorcode") != 0 or blocks.get(rid):
+                bad("version-request-not-answered-plainly", rid=rid, reply=reply,
+                    own_exchanges=len(blocks.get(rid, [])))
             continue
         if kind == "advance_refused":
             acc.count("advances_refused_by_device")
@@ -566,6 +641,10 @@ def run_shard(spec, acc):
     for k, d in enumerate(spec.get("late", [])):
         acc.count("late_answer_rounds_over_tcp")
         run_round(acc, spec, 3000 + k, rng, late=d)
+    for k, q in enumerate(spec.get("quiet", [])):
+        acc.count("rounds_with_a_quiet_period")
+        run_round(acc, dict(spec, max_clients=max(4, spec["max_clients"]), per_client=4),
+                  7000 + k, rng, quiet=q)
     for k in range(spec.get("fatal_rounds", 0)):
         acc.count("rounds_with_a_fatal_request")
         run_round(acc, dict(spec, max_clients=max(4, spec["max_clients"])), 6000 + k, rng,
